@@ -88,9 +88,9 @@ def cases(tier, seed):
     yield {"kind": "witness", "what": "sha-flag"}
     yield {"kind": "witness", "what": "parse-flags"}
     yield {"kind": "witness", "what": "counter-wrap"}
-    n_api = 12000 if tier == "thorough" else 270  # measured: ~0.2 s CPU per file incl. ~30 corrupted re-reads
-    n_cfg = 700 if tier == "thorough" else 16
-    n_cli = 400 if tier == "thorough" else 10
+    n_api = 12000 if tier == "thorough" else 900  # measured: ~0.2 s CPU per file incl. ~30 corrupted re-reads
+    n_cfg = 700 if tier == "thorough" else 48
+    n_cli = 400 if tier == "thorough" else 24
     for k in range(n_api):
         ver = ("2.1", "2.1", "2.1", "2.0s", "2.0u", "2.1", "2.0s", "2.1")[k % 8]
         yield {"kind": "api", "k": k, "ver": ver}
